@@ -235,10 +235,15 @@ fn build_model(c: &Value, seed: u64, label: &str) -> M2Model {
     m.header.collision_box_min = [v.f(), v.f(), v.f()];
     m.header.collision_box_max = [v.f(), v.f(), v.f()];
     m.header.collision_sphere_radius = v.f();
-    m.name = match card(c, "name") {
-        0 => None,
-        1 => Some(format!("Mdl{}", v.u() % 1000)),
-        _ => Some((0..300).map(|i| (b'A' + ((i + v.n as usize) % 26) as u8) as char).collect()),
+    // string lengths: the `strings` slice of the generator fixes them ({0,1,260,261,1024}); -1 = derive from the cardinality
+    let namelen = c.get("namelen").and_then(|x| x.as_i64()).unwrap_or(-1);
+    let texlen = c.get("texlen").and_then(|x| x.as_i64()).unwrap_or(-1);
+    let text = |v: &mut Vals, n: usize| -> String { (0..n).map(|i| (b'A' + ((i * 7 + i / 26 + v.u() as usize % 5) % 26) as u8) as char).collect() };
+    m.name = match (card(c, "name"), namelen) {
+        (0, _) => None,
+        (_, n) if n >= 0 => Some(text(&mut v, n as usize)),
+        (1, _) => Some(format!("Mdl{}", v.u() % 1000)),
+        _ => Some(text(&mut v, 300)),
     };
     m.global_sequences = (0..card(c, "global_sequences")).map(|_| v.u()).collect();
     for _ in 0..card(c, "animations") {
@@ -294,7 +299,7 @@ fn build_model(c: &Value, seed: u64, label: &str) -> M2Model {
     for i in 0..card(c, "textures") {
         // the second texture of three is a "hardcoded" one without a file name
         let named = i != 1;
-        let data: Vec<u8> = if named { format!("Tex\\Dir{}\\t{}.blp", v.u() % 97, i).into_bytes() } else { Vec::new() };
+        let data: Vec<u8> = if !named { Vec::new() } else if texlen >= 0 { text(&mut v, texlen as usize).into_bytes() } else { format!("Tex\\Dir{}\\t{}.blp", v.u() % 97, i).into_bytes() };
         let array = if named { M2Array::new(data.len() as u32 + 1, ctr.next()) } else { M2Array::new(0, 0) };
         m.textures.push(M2Texture {
             texture_type: if named { M2TextureType::Hardcoded } else { M2TextureType::Body },
@@ -672,30 +677,34 @@ fn run_m2(t: &mut Vec<Value>, c: &Value, case: &str, seed: u64) {
         t.push(json!({"ev":"Rewrite","case":case,"res":rres,"note":rnote,"len":rb.len(),"tok":tok(&rb)}));
     }
     let conv = M2Converter::new();
-    for (k, to) in ga(c, "convs").iter().enumerate() {
+    for to in ga(c, "convs") {
         let to = to.as_str().unwrap();
         let tv = version_of(to);
-        // both public entry points: the converter object (path planning) and the model's own method
-        let cv = if k % 2 == 0 { guarded(|| conv.convert(&m, tv)) } else { guarded(|| m.convert(tv)) };
-        let api = if k % 2 == 0 { "M2Converter::convert" } else { "M2Model::convert" };
-        let (cres, cnote) = (res_of(&cv), note_of(&cv));
-        let mut e = json!({"ev":"Convert","case":case,"from":from,"to":to,"api":api,"res":cres,"note":cnote,"secs":{},
-                           "wres":"skipped","wlen":0,"wtok":"","pres":"skipped","psecs":{}});
-        if let Some(cm) = take(cv) {
-            e["secs"] = model_tokens(&cm);
-            let cw = write_model(&cm);
-            e["wres"] = json!(res_of(&cw));
-            if let Some(cb) = take(cw) {
-                e["wlen"] = json!(cb.len());
-                e["wtok"] = json!(tok(&cb));
-                let cp = parse_model(&cb);
-                e["pres"] = json!(res_of(&cp));
-                if let Some(cpm) = take(cp) {
-                    e["psecs"] = model_tokens(&cpm);
+        // both public entry points, for every (from, to): the converter object (multi-step path planning, what the CLI
+        // uses) and the model's own single-step method
+        for api in ["converter", "model"] {
+            let cv = if api == "converter" { guarded(|| conv.convert(&m, tv)) } else { guarded(|| m.convert(tv)) };
+            let (cres, cnote) = (res_of(&cv), note_of(&cv));
+            let mut e = json!({"ev":"Convert","case":case,"from":from,"to":to,"api":api,"res":cres,"note":cnote,"secs":{},"rver":0,
+                               "wres":"skipped","wlen":0,"wtok":"","pres":"skipped","pver":0,"psecs":{}});
+            if let Some(cm) = take(cv) {
+                e["secs"] = model_tokens(&cm);
+                e["rver"] = json!(cm.header.version);
+                let cw = write_model(&cm);
+                e["wres"] = json!(res_of(&cw));
+                if let Some(cb) = take(cw) {
+                    e["wlen"] = json!(cb.len());
+                    e["wtok"] = json!(tok(&cb));
+                    let cp = parse_model(&cb);
+                    e["pres"] = json!(res_of(&cp));
+                    if let Some(cpm) = take(cp) {
+                        e["pver"] = json!(cpm.header.version);
+                        e["psecs"] = model_tokens(&cpm);
+                    }
                 }
             }
+            t.push(e);
         }
-        t.push(e);
     }
 }
 
@@ -782,8 +791,8 @@ fn conv_event<T>(case: &str, from: &str, to: &str, api: &str, cv: Outcome<std::r
                  toks: impl Fn(&T) -> Value, wr: impl Fn(&T) -> std::result::Result<Vec<u8>, wow_m2::M2Error>,
                  pr: impl Fn(&[u8]) -> std::result::Result<T, wow_m2::M2Error>) -> Value {
     let (cres, cnote) = (res_of(&cv), note_of(&cv));
-    let mut e = json!({"ev":"Convert","case":case,"from":from,"to":to,"api":api,"res":cres,"note":cnote,"secs":{},
-                       "wres":"skipped","wlen":0,"wtok":"","pres":"skipped","psecs":{}});
+    let mut e = json!({"ev":"Convert","case":case,"from":from,"to":to,"api":api,"res":cres,"note":cnote,"secs":{},"rver":0,
+                       "wres":"skipped","wlen":0,"wtok":"","pres":"skipped","pver":0,"psecs":{}});
     if let Some(cm) = take(cv) {
         e["secs"] = toks(&cm);
         let cw = guarded(|| wr(&cm));
@@ -913,6 +922,7 @@ fn main() {
         let mut evs = vec![json!({"ev":"Reset","case":case,"kind":kind,"fmt":fmt,"slice":gs(c,"slice"),
             "ver":c.get("ver").cloned().unwrap_or(json!(if fmt == "anim_modern" { "Legion" } else { "MoP" })),"vn":c.get("vn").cloned().unwrap_or(json!(0)),
             "kf":c.get("kf").cloned().unwrap_or(json!(false)),"floats":c.get("floats").cloned().unwrap_or(json!("normal")),
+            "namelen":c.get("namelen").cloned().unwrap_or(json!(-1)),"texlen":c.get("texlen").cloned().unwrap_or(json!(-1)),
             "pop":pop,"shape":c.get("card").cloned().unwrap_or(json!({"nsec":c.get("nsec"),"nbones":c.get("nbones"),"data":c.get("data")}))})];
         match kind {
             "m2" => run_m2(&mut evs, c, &case, seed),
